@@ -72,7 +72,9 @@ impl World {
             "new" => {
                 let id = geti(cmd, "id");
                 let kind = gets(cmd, "k", "cc14");
-                let to = cmd.get("to").and_then(|v| v.as_i64()).unwrap_or(0);
+                // "to": milliseconds (negative = infinite); "toh": half-milliseconds, overrides "to"
+                let to_ms = cmd.get("to").and_then(|v| v.as_i64()).unwrap_or(0);
+                let to = cmd.get("toh").and_then(|v| v.as_i64()).unwrap_or(if to_ms < 0 { to_ms } else { to_ms * 2 });
                 let via_default = gets(cmd, "via", "new") == "default";
                 let (r, al) = guarded(|| Inst::new(kind, to, via_default));
                 match r {
